@@ -190,6 +190,9 @@ func CSVProducer(opts ...CSVOpt) Producer {
 		if data == nil {
 			return errors.New("nil data for CSVProducer")
 		}
+		if v := reflect.ValueOf(data); v.Kind() == reflect.Ptr && v.IsNil() {
+			return errors.New("nil pointer data for CSVProducer")
+		}
 
 		csvWriter := csv.NewWriter(writer)
 		o.applyToWriter(csvWriter)
